@@ -14,6 +14,7 @@
 //   O2: for Location / Content-Location value V made of visible ASCII: if T parses and names the request's host,
 //       T's lookup key was handed to purgeEntriesByUrl().
 // Symbolic: method, status, which header, the marked bytes of V.
+// Known findings (known_findings.json) have their own entries c20_known_*; see onlyRawPurgeKeys / onlyUnsafeUnpurged.
 #include "squid.h"
 #include <sstream>
 #include <functional>
@@ -116,14 +117,14 @@ static unsigned removeDots(const char *in, unsigned n, char *out)
     return o;
 }
 // T = resolve(V); false when V is not a reference a client could turn into an http request-target (outside the oracle)
-// Set by resolve(): classes of values for which Squid does not invalidate the named same-host URL (KNOWN-FINDING candidates,
-// each confirmed by a natively replayed counterexample; -DC20_SHOW=<bit mask> re-admits classes to show them again).
-enum { kRelativePath, kAuthoritySpelling, kEmptyPath, kSchemeCase, kFragment, kEncodedChar, kNetworkPath, kDotSegment, kClasses };
+// Set by resolve(): classes of values for which Squid does not invalidate the named same-host URL. They are KNOWN FINDINGS
+// (known_findings.json, C20-raw-purge-keys): examined only by the entry c20_known_raw_purge_keys, which is restricted to exactly
+// these classes and keeps the strict assertion; every other entry excludes exactly these classes.
+enum { kAuthoritySpelling, kEmptyPath, kSchemeCase, kFragment, kEncodedChar, kNetworkPath, kDotSegment, kQueryOnly, kClasses };
 static bool known[kClasses];
 static bool otherHost; // set by resolve(): the value's authority names a host other than the request's (nothing is required)
-#ifndef C20_SHOW
-#define C20_SHOW 0
-#endif
+static bool onlyRawPurgeKeys = false;  // set by c20_known_raw_purge_keys only
+static bool onlyUnsafeUnpurged = false; // set by c20_known_unsafe_methods only
 static bool hasDotSegment(const char *p, const unsigned n)
 {
     for (unsigned a = 0; a < n;) { // segments are separated by '/'
@@ -154,8 +155,9 @@ static bool resolve(const uint8_t *v, unsigned n, char *out)
     }
     { unsigned k = i; while (k < n && s[k] != '?') ++k; path = {s + i, k - i, true}; i = k; }
     if (i < n) query = {s + i + 1, n - i - 1, true};
+    if (!scheme.defined && !auth.defined) // RFC 3986 4.2: the first segment of a relative-path reference cannot contain ':'
+        for (unsigned k = 0; k < path.n && path.p[k] != '/'; ++k) if (path.p[k] == ':') return false;
 
-    known[kRelativePath] = !scheme.defined && n > 0 && s[0] != '/';
     otherHost = false;
     if (auth.defined && !(auth.n == 3 && auth.p[0] == 'h' && auth.p[1] == '.' && auth.p[2] == 'x')) {
         unsigned st = 0;                                   // host = after the last '@', up to the next ':'
@@ -172,6 +174,7 @@ static bool resolve(const uint8_t *v, unsigned n, char *out)
         for (unsigned k = (unsigned)(path.p - s); k < n; ++k) if (s[k] == '?' || s[k] == '[' || s[k] == ']') known[kEncodedChar] = true;
     known[kNetworkPath] = !scheme.defined && auth.defined;
     known[kDotSegment] = hasDotSegment(path.p, path.n);
+    known[kQueryOnly] = !scheme.defined && !auth.defined && path.n == 0 && query.defined;
     char merged[64]; unsigned mlen = 0;
     Ref tScheme = {"http", 4, true}, tAuth = {"h.x", 3, true}, tQuery = query;
     if (scheme.defined) {
@@ -237,17 +240,19 @@ static HttpRequestMethod symbolicMethod(unsigned &id)
 }
 
 // O1: the request's own URL
-extern "C" void c20_target(void)
+static void target()
 {
     vf_quiet(); config();
     unsigned m;
     const HttpRequestMethod method = symbolicMethod(m);
     vf_assume(m != Http::METHOD_CONNECT);  // CONNECT has no cacheable target (its effective URI is an authority)
-    // KNOWN-FINDING candidate: COPY, LOCK and UNLOCK are unsafe methods (RFC 4918; not "Safe" in the IANA registry) but
-    // HttpRequestMethod::purgesOthers() lists them as not purging, so a successful COPY/LOCK/UNLOCK leaves the cached GET response
-    // of its URL in place (RFC 9111 4.4: MUST invalidate after a non-error response to an unsafe method). Replay: method=25|27|28, status=200.
-    vf_assume(m != Http::METHOD_COPY && m != Http::METHOD_LOCK && m != Http::METHOD_UNLOCK);
-    const unsigned status = vf_range(200, 599, "status");
+    // KNOWN FINDING (known_findings.json, C20-unsafe-methods-not-purging): COPY, LOCK and UNLOCK are unsafe methods (RFC 4918; not
+    // "Safe" in the IANA registry) but HttpRequestMethod::purgesOthers() lists them as not purging, so a successful COPY/LOCK/UNLOCK
+    // leaves the cached GET response of its URL in place (RFC 9111 4.4: MUST invalidate after a non-error response to an unsafe
+    // method). Examined only by c20_known_unsafe_methods; every other entry excludes exactly these three methods.
+    const bool unpurged = m == Http::METHOD_COPY || m == Http::METHOD_LOCK || m == Http::METHOD_UNLOCK;
+    vf_assume(unpurged == onlyUnsafeUnpurged);
+    const unsigned status = onlyUnsafeUnpurged ? vf_range(200, 399, "status") : vf_range(200, 599, "status");
     World w(method, "http://h.x/p/q", status);
     w.client->maybePurgeOthers();
     vf_observe("purges", purges);
@@ -258,6 +263,8 @@ extern "C" void c20_target(void)
         vf_reach(purges ? "purged-anyway" : "kept");
     WITNESS_POINT();
 }
+extern "C" void c20_target(void) { target(); }
+extern "C" void c20_known_unsafe_methods(void) { onlyUnsafeUnpurged = true; target(); }
 
 // O2: URLs named by Location / Content-Location
 static void named(const uint8_t *v, const unsigned n)
@@ -266,12 +273,37 @@ static void named(const uint8_t *v, const unsigned n)
     static const Http::MethodType pool[3] = {Http::METHOD_POST, Http::METHOD_PUT, Http::METHOD_DELETE};
     const unsigned mi = vf_range(0, 3, "method");
     const HttpRequestMethod method = mi < 3 ? HttpRequestMethod(pool[mi]) : HttpRequestMethod(SBuf("PATCH"));
-    const unsigned status = vf_range(200, 599, "status");
-    World w(method, "http://h.x/p/q", status);
+    const unsigned status = onlyRawPurgeKeys ? vf_range(200, 399, "status") : vf_range(200, 599, "status");
     char val[32];
     for (unsigned i = 0; i < n; ++i) { vf_assume(v[i] != 0 && v[i] != '\r' && v[i] != '\n'); val[i] = (char)v[i]; } // a field value
     val[n] = 0;
     if (n) vf_assume(v[0] != ' ' && v[0] != '\t' && v[n - 1] != ' ' && v[n - 1] != '\t');                      // as parsed: trimmed
+
+    // the reference first (it does not touch Squid): what the value names, and whether it is in a known-finding class
+    // (the known-finding entry needs the class before the run to restrict itself; the other entries consult the reference after it)
+    char target[96];
+    bool isUrl = onlyRawPurgeKeys ? resolve(v, n, target) : false;
+    // KNOWN FINDING C20-raw-purge-keys (request POST http://h.x/p/q, status 200; the value in Location or Content-Location): the
+    // purge key is the header value as written (absolute values) or an un-normalised merge (relative values), while lookup keys
+    // are canonical (AnyP::Uri::parse + absolute()):
+    // kAuthoritySpelling: "http://H.x/a", "http://h.x:80/a", "http://u@h.x/a", "http://h.x:81/a" name the request's host but
+    //   sameUrlHosts() compares the authority bytes, so nothing is purged (replay "http://H.x/a": 'http://' b '.x' b 'a' with b=72 b=47).
+    // kEmptyPath: "http://h.x", "http://h.x?a": sameUrlHosts() compares the request URL's '/' with NUL or '?' -> nothing purged.
+    // kSchemeCase: "httP://h.x/a" is purged as written; the stored key has the lower-case scheme.
+    // kFragment: "http://h.x/a#f" is purged as written, "/a#f" as ".../a%23f"; a GET never carries the fragment.
+    // kEncodedChar: an absolute value is purged as written, but the lookup key is AnyP::Uri::absolute(), which percent-encodes
+    //   every byte outside PathChars() -- '[' ']' and, since path_ includes the query, '?' (replay "http://h.x/!]", "http://h.x/?a").
+    // kNetworkPath: "//h.x/a" is treated as an absolute path: "http://h.x//h.x/a" is purged instead of http://h.x/a.
+    // kDotSegment: "/a/../b", "http://h.x/./a", "./b" are purged with their dot segments; the URL they name (RFC 3986 5.2.4) is not.
+    // kQueryOnly: "?x" names http://h.x/p/q?x (RFC 3986 5.2.2: empty path keeps the base path) but AnyP::Uri::addRelativePath() replaces
+    //   the last segment: http://h.x/p/%3Fx is purged (replay "?": every value of 0..2 bytes with len=1 b=63).
+    bool inKnownClass = false;
+    if (onlyRawPurgeKeys) {
+        for (unsigned k = 0; k < kClasses; ++k) inKnownClass = inKnownClass || known[k];
+        vf_assume(isUrl && !otherHost && inKnownClass); // exactly the finding's class
+    }
+
+    World w(method, "http://h.x/p/q", status);
     const bool contentLocation = vf_concretize(vf_bool("content_location"));
     w.rep->header.putStr(contentLocation ? Http::HdrType::CONTENT_LOCATION : Http::HdrType::LOCATION, val);
 
@@ -280,28 +312,18 @@ static void named(const uint8_t *v, const unsigned n)
 
     if (status >= 400) { vf_reach("error-status"); WITNESS_POINT(); return; } // nothing is required after an error response
     vf_assert(wasPurged("http://h.x/p/q"), "non-error response to an unsafe method: the request URL is invalidated");
-    char target[96];
-    if (!resolve(v, n, target)) { vf_reach("not-a-url"); WITNESS_POINT(); return; }
+    if (!onlyRawPurgeKeys) {
+        isUrl = resolve(v, n, target);
+        for (unsigned k = 0; k < kClasses; ++k) inKnownClass = inKnownClass || known[k];
+    }
+    if (!isUrl) { vf_reach("not-a-url"); WITNESS_POINT(); return; }
     if (otherHost) { vf_reach("other-host"); WITNESS_POINT(); return; }
-    // KNOWN-FINDING candidates (request POST http://h.x/p/q, status 200; the value below in Location or Content-Location):
-    // kRelativePath: a relative reference not starting with '/' ("b", "./b", "?x") is not invalidated. purgeEntriesByHeader()
-    //   copies req->url *with its cached absolute_ form* (filled by effectiveRequestUri() just before) and
-    //   AnyP::Uri::addRelativePath() changes path_ without touch(), so tmpUrl.absolute() returns the request URL again
-    //   (replay "Q.": c20_rel_any len=2 b=81 b=46). addRelativePath() also neither removes dot segments nor handles "?query" references.
-    // kAuthoritySpelling: "http://H.x/a", "http://h.x:80/a", "http://u@h.x/a", "http://h.x:81/a" name the request's host but
-    //   sameUrlHosts() compares the authority bytes, so nothing is purged (replay "http://H.x/a": c20_abs_host b=72 b=47).
-    // kEmptyPath: "http://h.x", "http://h.x?a": sameUrlHosts() compares the request URL's '/' with NUL or '?' -> nothing purged
-    //   (replay "http://h.x": c20_abs_end b=120).
-    // kSchemeCase: "httP://h.x/a" is purged as written; the stored key has the lower-case scheme (c20_abs_scheme b=80 b=58).
-    // kFragment: "http://h.x/a#f" is purged as written, "/a#f" as ".../a%23f"; a GET never carries the fragment (c20_rel_abs b=35 b=35).
-    // kEncodedChar: an absolute value is purged as written, but the lookup key is AnyP::Uri::absolute(), which percent-encodes
-    //   every byte outside PathChars() -- '[' ']' and, since path_ includes the query, '?' (replay "http://h.x//]": c20_abs_path b=47 b=93).
-    // kNetworkPath: "//h.x/a" is treated as an absolute path: ".../http://h.x//h.x/a" is purged instead of http://h.x/a.
-    // kDotSegment: "/a/../b", "http://h.x/./a" are purged with their dot segments; the URL they name (RFC 3986 5.2.4) is not.
-#define KNOWN_CLASS(k, label) if (known[k] && !((C20_SHOW >> k) & 1)) { vf_reach(label); WITNESS_POINT(); return; }
-    KNOWN_CLASS(kRelativePath, "known-relative-path") KNOWN_CLASS(kAuthoritySpelling, "known-authority-spelling")
-    KNOWN_CLASS(kEmptyPath, "known-empty-path") KNOWN_CLASS(kSchemeCase, "known-scheme-case") KNOWN_CLASS(kFragment, "known-fragment")
-    KNOWN_CLASS(kEncodedChar, "known-encoded-char") KNOWN_CLASS(kNetworkPath, "known-network-path") KNOWN_CLASS(kDotSegment, "known-dot-segment")
+    if (inKnownClass && !onlyRawPurgeKeys) { // excluded here, examined by c20_known_raw_purge_keys
+#define KNOWN_CLASS(k, label) if (known[k]) { vf_reach(label); WITNESS_POINT(); return; }
+        KNOWN_CLASS(kAuthoritySpelling, "known-authority-spelling") KNOWN_CLASS(kEmptyPath, "known-empty-path")
+        KNOWN_CLASS(kSchemeCase, "known-scheme-case") KNOWN_CLASS(kFragment, "known-fragment") KNOWN_CLASS(kEncodedChar, "known-encoded-char")
+        KNOWN_CLASS(kNetworkPath, "known-network-path") KNOWN_CLASS(kDotSegment, "known-dot-segment") KNOWN_CLASS(kQueryOnly, "known-query-only")
+    }
     AnyP::Uri later; // the later GET for that URL, as Squid parses and keys it
     if (!later.parse(HttpRequestMethod(Http::METHOD_GET), SBuf(target))) { vf_reach("unparsable"); WITNESS_POINT(); return; }
     vf_assert(strcasecmp(later.host(), "h.x") == 0, "harness: the reference and AnyP::Uri::parse agree that the URL names the request's host");
@@ -331,5 +353,20 @@ extern "C" void c20_rel_any(void)                 // every reference of 0..NANY 
     const unsigned n = (unsigned)vf_concretize(vf_range(0, NANY, "len"));
     uint8_t in[NANY + 1];
     for (unsigned i = 0; i < n; ++i) in[i] = vf_nondet_u8("b");
+    named(in, n);
+}
+
+// KNOWN FINDING (known_findings.json, C20-raw-purge-keys): values whose purge key is raw / un-normalised
+extern "C" void c20_known_raw_purge_keys(void)
+{
+    onlyRawPurgeKeys = true;
+    vf_quiet();
+    uint8_t in[24]; unsigned n;
+    const unsigned f = (unsigned)vf_concretize(vf_range(0, 4, "family"));
+    if (f == 0) n = VF_FILL(in, "http://h.x/\x01\x01", "b");        // fragment, '?' '[' ']', dot segments
+    else if (f == 1) n = VF_FILL(in, "http://\x01.x\x01" "a", "b");  // host spelled differently, empty path
+    else if (f == 2) n = VF_FILL(in, "htt\x01://h.x/a", "b");        // scheme case
+    else if (f == 3) n = VF_FILL(in, "/\x01h.x/a", "b");             // network-path reference
+    else n = VF_FILL(in, "?\x01", "b");                              // query-only reference
     named(in, n);
 }
